@@ -221,6 +221,11 @@ func runC16(cfg *config) *Report {
 			if in.desc != "whole file" {
 				sizes = []int{bufSizes[ii%len(bufSizes)], bufSizes[(ii+2)%len(bufSizes)]}
 			}
+			if in.desc == "one byte corrupted" {
+				// a corrupted length prefix may declare a record longer than any record of the valid
+				// file: "the buffer can hold the longest record" then means the whole input
+				sizes = []int{len(in.b) + 8, 1 << 20}
+			}
 			for si, bs := range sizes {
 				withEOF := (si+ii)%2 == 0
 				got, p := readChunked(in.b, in.e, bs, scheds[name], withEOF)
